@@ -176,7 +176,7 @@ class Model():
         """
 
         # Set asset ID and check for duplicates
-        asset.id = asset_id or self.next_id
+        asset.id = asset_id if asset_id is not None else self.next_id
         if asset.id in self.asset_ids:
             raise ValueError(f'Asset index {asset_id} already in use.')
         self.asset_ids.add(asset.id)
